@@ -143,14 +143,13 @@ func (nd *node) dirNames() []string {
 	return names
 }
 
-// remove deletes the content of a node.
+// remove deletes the entries of a node and decrements its reference counter.
+// The data is kept : a file that has no more name can still be read and written through the handles
+// opened before its last name was removed, the memory is reclaimed when the last of them is closed.
 func (nd *node) remove() {
 	nd.children = nil
 
 	nd.nlink--
-	if nd.nlink == 0 {
-		nd.data = nil
-	}
 }
 
 // setMode sets the permissions of the file node.
